@@ -18,6 +18,8 @@ CONSTANTS Streams, W0, C0, MF0, DataSizes, PadSizes, Incs, InitWins, MaxFrames,
           BugZeroCostHeld, \* TRUE: relay.go:562 as found - a frame that is not flow-controlled is held back while a window is negative
           WithSettings,    \* FALSE: the sender's own SETTINGS frames and the receiver's empty one are left out (state space)
           DropOnClose,     \* TRUE: as found - when the sender's connection ends, what the relay still holds for the receiver is dropped
+          WriteErrorEndsReader, \* TRUE: as found - a frame of the receiver's that cannot be passed on to a sender that is gone ends
+                                \* the reading of the receiver's frames, its WINDOW_UPDATEs among them
           ForwardInitWin,  \* TRUE: as found - the receiver's SETTINGS_INITIAL_WINDOW_SIZE is passed on to the sender, whose own
                            \* windows towards the relay it then governs (while the receiver's WINDOW_UPDATEs stay with the relay)
           SplitOnlyAtEnqueue \* TRUE: as found - DATA is cut to the receiver's max frame size when queued and never again;
@@ -33,7 +35,9 @@ VARIABLES q, sw, bufs, cw, iw, mf, out, cont,      \* relay (flowMu-protected + 
           pings, goneAway,                         \* connection-level frames: PINGs sent and not yet seen by B; GOAWAY sent / seen
           aClosed,                                 \* the sender has ended its side of the connection (EOF at the relay's reader)
           sets                                     \* SETTINGS frames on their way to the other endpoint (a2b, b2a) and their
-                                                   \* acknowledgements on the way back (ackA: owed to A, ackB: owed to B)
+                                                   \* acknowledgements on the way back (ackA: owed to A, ackB: owed to B);
+                                                   \* gone: A has closed its connection altogether (writes to it fail);
+                                                   \* dead: the relay no longer reads B's frames
 
 rel   == <<q, sw, bufs, cw, out>>
 ledg  == <<gS, gC, bad, badMF>>
@@ -54,7 +58,7 @@ Init ==
   /\ nSend = 0 /\ nCtl = 0
   /\ hcount = 0 /\ encOrder = <<>> /\ dlvOrder = <<>>
   /\ pings = {} /\ goneAway = "no" /\ aClosed = FALSE
-  /\ sets = [a2b |-> 0, b2a |-> 0, ackA |-> 0, ackB |-> 0]
+  /\ sets = [a2b |-> 0, b2a |-> 0, ackA |-> 0, ackB |-> 0, gone |-> FALSE, dead |-> FALSE]
 
 \* relay.go:483 outputBuffer(): created on first use with the *current* initial window
 Buf(s) == IF s \in bufs THEN sw[s] ELSE iw
@@ -210,6 +214,19 @@ ASendClose ==
   /\ IF DropOnClose THEN q' = [s \in Streams |-> <<>>] /\ out' = <<>> ELSE UNCHANGED <<q, out>>
   /\ UNCHANGED <<sw, bufs, cw, iw, mf, cont, ctl, ledg, aled, sentLog, dlvLog, nCtl, hp, pings, goneAway, sets>>
 
+\* the sender closes its connection altogether: as before, and nothing can be written to it any more
+ASendCloseFull ==
+  /\ cont.s = 0 /\ ~aClosed /\ aClosed' = TRUE /\ nSend' = MaxSend
+  /\ sets' = [sets EXCEPT !.gone = TRUE]
+  /\ IF DropOnClose THEN q' = [s \in Streams |-> <<>>] /\ out' = <<>> ELSE UNCHANGED <<q, out>>
+  /\ UNCHANGED <<sw, bufs, cw, iw, mf, cont, ctl, ledg, aled, sentLog, dlvLog, nCtl, hp, pings, goneAway>>
+\* the receiver sends a frame that is to be passed on to the sender (a PING: keep-alive, round-trip measurement). When the
+\* sender is gone the write fails; the receiver's connection is as alive as before and its WINDOW_UPDATEs still count
+BSendPing ==
+  /\ nCtl < MaxCtl /\ nCtl' = nCtl + 1
+  /\ sets' = IF sets.gone /\ WriteErrorEndsReader THEN [sets EXCEPT !.dead = TRUE] ELSE sets
+  /\ UNCHANGED <<rel, iw, mf, cont, ctl, ledg, aled, sentLog, dlvLog, nSend, hp, pings, goneAway, aClosed>>
+
 (* ---- writer goroutine: output channel -> B (relay.go:165-184) ---- *)
 \* what the writer puts on the wire next: a DATA frame that has waited is cut to the limit now in force
 \* (queued_frames.go queuedDataFrame.send)
@@ -262,7 +279,7 @@ RescanAll(order, qq, ww, c, acc) ==
 Orders(S) == {o \in [1..Cardinality(S) -> S] : \A i, j \in 1..Cardinality(S) : i # j => o[i] # o[j]}
 
 ApplyCtl ==
-  /\ ctl # <<>>
+  /\ ctl # <<>> /\ ~sets.dead
   /\ LET f == Head(ctl) IN
      /\ ctl' = Tail(ctl)
      /\ CASE f.t = "WU" /\ f.s = 0 ->      \* relay.go:348-355
@@ -298,7 +315,7 @@ Next ==
   \/ \E s \in Streams, p \in Promised : ASendPush(s, p)
   \/ \E s \in Streams : ASendPrio(s)
   \/ \E d \in Pings : ASendPing(d) \/ BRecvPing(d)
-  \/ ASendGoAway \/ BRecvGoAway \/ ASendClose \/ ASendUnknown
+  \/ ASendGoAway \/ BRecvGoAway \/ ASendClose \/ ASendCloseFull \/ BSendPing \/ ASendUnknown
   \/ (WithSettings /\ ASendSettings) \/ ARecvSettings \/ BRecvSettings \/ ARecvAck \/ BRecvAck
   \/ (WithSettings /\ BCtl([t |-> "SE", s |-> 0, v |-> 0]))
   \/ WriterSend
@@ -331,6 +348,8 @@ LedgerAgrees     == gC = cw /\ \A s \in bufs : gS[s] = sw[s]     \* relay window
 HpackInOrder     == \A i \in 1..Len(dlvOrder) : i <= Len(encOrder) /\ dlvOrder[i] = encOrder[i]
 PrefixFidelity   == \A s \in Streams : LogPrefix(dlvLog[s], sentLog[s])        \* C10
 AllDelivered     == <>[](\A s \in Streams : q[s] = <<>> => dlvLog[s] = sentLog[s]) \* C10 liveness
-SetsDone == sets = [a2b |-> 0, b2a |-> 0, ackA |-> 0, ackB |-> 0]
+SetsDone == sets.a2b = 0 /\ sets.b2a = 0 /\ sets.ackA = 0 /\ sets.ackB = 0
+\* C10 "none is stranded": the receiver's frames are read as long as its connection is open - whatever has become of the sender
+ReaderAlive      == ~sets.dead
 ConnFramesRelayed == <>[](pings = {} /\ goneAway # "sent" /\ SetsDone)                      \* C10: PING / GOAWAY reach the receiver
 ==============================================================================
